@@ -329,4 +329,14 @@ def warning_filter(repo: Repo) -> RuleRun:
 
 warning_filter.rule_id = "C13.WARNING-FILTER"
 
-RULES = [rollback, probe_restore, who_writes_points, backport_rule, warning_filter]
+def affine_kinds(repo: Repo) -> RuleRun:
+    """Default bounds and positions of clamps and links are built from differences of points, never from positions
+    (same check as C17.AFFINE-KINDS, over the optimisation package)."""
+    from ..affine import kinds_rule
+
+    return kinds_rule(repo, PROP, "C13.AFFINE-KINDS", ("optimize.",), floor=5)
+
+
+affine_kinds.rule_id = "C13.AFFINE-KINDS"
+
+RULES = [rollback, probe_restore, who_writes_points, backport_rule, warning_filter, affine_kinds]
